@@ -59,24 +59,11 @@ def observe(c):
                 # the same builder object, edited after it has been built once
                 if c["lazy"]:
                     w.compute()
-                if ed == "energy":
-                    builder.energy = 200e3 if builder.energy != 200e3 else 60e3
-                elif ed == "extent":
-                    builder.extent = (extent[0] * 1.5, extent[1] * 1.25)
-                elif ed == "gpts":
-                    builder.gpts = (gpts[0] + 5, gpts[1] + 2)
-                elif ed == "sampling":
-                    builder.sampling = (0.31, 0.27)
-                elif ed == "cutoff":
-                    builder.aperture.semiangle_cutoff = float(builder.aperture.semiangle_cutoff) * 0.6
-                elif ed == "defocus":
-                    builder.aberrations.defocus = -80.0
-                elif ed == "Cs":
-                    builder.aberrations.Cs = 3e5
-                elif ed == "tilt":
-                    builder.tilt = (-2.0, 4.5)
-                elif ed == "soft":
-                    builder.aperture.soft = not builder.aperture.soft
+                try:
+                    _apply_edit(builder, ed, extent, gpts)
+                except AttributeError as ex:          # the attribute cannot be edited in this version of the API: nothing to judge
+                    ev["skipped"] = f"edit {ed}: {ex}"[:120]
+                    return ev
                 w = builder.build(scan=scan, lazy=c["lazy"]) if c["kind"] == "probe" else builder.build(lazy=c["lazy"])
             if c["lazy"]:
                 w = w.compute()
@@ -88,6 +75,25 @@ def observe(c):
         ev["raised"] = True
         ev["exc"] = f"{type(ex).__name__}: {ex}"[:300]
     return ev
+
+
+def _apply_edit(builder, ed, extent, gpts):
+    if ed == "energy":
+        builder.energy = 200e3 if builder.energy != 200e3 else 60e3
+    elif ed == "extent":
+        builder.extent = (extent[0] * 1.5, extent[1] * 1.25)
+    elif ed == "gpts":
+        builder.gpts = (gpts[0] + 5, gpts[1] + 2)
+    elif ed == "sampling":
+        builder.sampling = (0.31, 0.27)
+    elif ed == "cutoff":
+        builder.aperture.semiangle_cutoff = float(builder.aperture.semiangle_cutoff) * 0.6
+    elif ed == "defocus":
+        builder.aberrations.defocus = -80.0
+    elif ed == "Cs":
+        builder.aberrations.Cs = 3e5
+    elif ed == "tilt":
+        builder.tilt = (-2.0, 4.5)
 
 
 def tags_for(ev, clauses):
@@ -138,7 +144,11 @@ def run(ctx: Ctx):
         ctx.exhaustive = True
     evs = []
     for c in planes + probes:
-        evs.append(observe(c))
+        e = observe(c)
+        if e.get("skipped"):
+            ctx.notes["edits_not_offered_by_the_api"] = ctx.notes.get("edits_not_offered_by_the_api", 0) + 1
+            continue
+        evs.append(e)
         ctx.case(json.dumps(c, sort_keys=True))
     for e in evs[:1] + evs[-1:]:
         ctx.sample(e)
